@@ -241,6 +241,14 @@ func c12(e *Env) {
 		return len(en)
 	}
 	forgetful := c.Choose("forgetful-nodes", 2) == 1
+	var foreignWrites [][]byte
+	if c.Choose("writes-prepared-elsewhere", 3) == 2 {
+		for _, text := range []string{"UPDATE ks.t_elsewhere SET v = 1 WHERE k = ? IF v = 0", "INSERT INTO ks.t_elsewhere (k) VALUES (?) IF NOT EXISTS"} {
+			id := world.PreparedID(text)
+			w.ForeignPrepared(id, text)
+			foreignWrites = append(foreignWrites, id)
+		}
+	}
 	// some runs: a v3 client sets the CUSTOM_PAYLOAD header flag (0x04, defined from v4 on) and puts
 	// a payload map in front of its message - a frame that is not well-formed under its version.
 	// What becomes of that request is not judged (an error, a closed connection and even a lost
@@ -276,6 +284,21 @@ func c12(e *Env) {
 			e.Res.Stats["probe.c12.node_forgot_prepared_statements"]++
 		}
 		tok := w.NewToken()
+		if len(foreignWrites) > 0 && c.Choose("foreign-write?", 8) == 7 {
+			// EXECUTE of a write that was prepared elsewhere (before a restart of this proxy, through
+			// another proxy): the proxy has never seen its PREPARE. An id it knows nothing about counts
+			// as a write - the first time and every time after, whatever the results looked like
+			id := foreignWrites[c.Choose("foreign-write", len(foreignWrites))]
+			var rm []byte
+			if cl.Version.SupportsResultMetadataId() {
+				rm = id
+			}
+			lvl := world.AllConsistencies[c.Choose("foreign-write-cl", len(world.AllConsistencies))]
+			g := world.GenReq{Kind: "execute", Msg: world.ExecMsg(id, rm, tok, lvl), CL: lvl, Desc: fmt.Sprintf("execute %s cl=%v of a write prepared elsewhere", cl.Version, lvl)}
+			recs = append(recs, rec{cl.Send(g.Kind, tok, g.Msg, nil), g})
+			e.Res.Stats["probe.c12.execute_of_write_prepared_elsewhere"]++
+			return
+		}
 		g := world.GenRequest(c, cl.Version, tok, pw.execIDs, pw.execSelect, maxVal)
 		for g.Kind == "prepare" {
 			g = world.GenRequest(c, cl.Version, tok, pw.execIDs, pw.execSelect, maxVal)
